@@ -413,4 +413,67 @@ theorem readStrings_enc (nd : Nat) (base : List UInt8) (strs : List (List UInt8)
     simp only [List.length_cons, List.flatMap_cons, List.append_assoc, readStrings,
       readBytes_of_length nd s _ (h s (by simp)), ih', List.map_cons]
 
+/-! ### `ColOK` -/
+
+theorem mem_zip_map {α β : Type} (l : List α) (f : α → β) (p : α × β) (h : p ∈ l.zip (l.map f)) :
+    p.1 ∈ l ∧ p.2 = f p.1 := by
+  induction l with
+  | nil => simp at h
+  | cons a as ih =>
+    simp only [List.map_cons, List.zip_cons_cons, List.mem_cons] at h
+    rcases h with h | h
+    · subst h; simp
+    · obtain ⟨h1, h2⟩ := ih h; exact ⟨by simp [h1], h2⟩
+
+theorem toBits_ne_ones (d a : Nat) (h : a < 2 ^ d - 1) : toBits d a ≠ ones d := by
+  intro he
+  have h1 := ofBits_toBits d a
+  rw [he, ofBits_ones, Nat.mod_eq_of_lt (by omega)] at h1
+  omega
+
+/-- every legal column is `ColOK` (for the flag that is on exactly when the width is 0) -/
+theorem colOK_of_legal (w d : Nat) (raws : List (Option Nat)) (sawEqual : Bool)
+    (hr : Spec.InRange w raws) (hd : Spec.LegalWidth d raws) (hflag : d = 0 ↔ sawEqual = true) :
+    Spec.ColOK w raws sawEqual (Spec.intColumnBitsWith d raws w) := by
+  obtain ⟨hd63, hd0, hdpos⟩ := hd
+  cases hmin : Spec.colMin raws with
+  | none =>
+    have hz : d = 0 := by
+      rcases Nat.eq_zero_or_pos d with h | h
+      · exact h
+      · obtain ⟨lo, hlo, _⟩ := hdpos h; rw [hmin] at hlo; cases hlo
+    refine ⟨ones w, d, [], ?_, ones_length w, by omega, hflag, ?_, fun h => ⟨rfl, hd0 h⟩,
+      fun h => by omega⟩
+    · simp [Spec.intColumnBitsWith, hmin]
+    · simp only [hmin]
+  | some lo =>
+    obtain ⟨hlomem, hlomin⟩ := colMin_some raws lo hmin
+    have hlo := (hr lo hlomem).1
+    refine ⟨toBits w lo, d, (if d = 0 then [] else raws.map (Spec.incrBits d lo)), ?_,
+      toBits_length w lo, by omega, hflag, ?_, fun h => ⟨by simp [h], hd0 h⟩, fun h => ?_⟩
+    · simp only [Spec.intColumnBitsWith, hmin]
+      by_cases hz : d = 0
+      · simp [hz]
+      · simp only [hz, if_false, List.flatMap_def]
+    · simp only [hmin, ofBits_toBits, Nat.mod_eq_of_lt hlo]
+    · have hz : d ≠ 0 := by omega
+      obtain ⟨lo', hlo', hfit⟩ := hdpos h
+      rw [hmin] at hlo'; cases hlo'
+      simp only [hz, if_false, List.length_map, true_and]
+      intro p hp
+      obtain ⟨hp1, hp2⟩ := mem_zip_map raws _ p hp
+      rw [hp2]
+      refine ⟨incrBits_length d lo p.1, ?_, fun v hv => ?_⟩
+      · cases hp1' : p.1 with
+        | none => simp [Spec.incrBits]
+        | some v =>
+          rw [hp1'] at hp1
+          simp only [Spec.incrBits, false_iff, reduceCtorEq]
+          exact toBits_ne_ones d _ (hfit v hp1)
+      · rw [hv] at hp1 ⊢
+        have := hfit v hp1
+        refine ⟨lo, hmin, hlomin v hp1, ?_⟩
+        simp only [Spec.incrBits, ofBits_toBits]
+        exact Nat.mod_eq_of_lt (by omega)
+
 end Bufr
